@@ -64,6 +64,19 @@ def _mk_td(t):
 T1 = _mk_td(int)
 T2 = _mk_td(str)
 
+def _mk_str(doc):
+    class Tag(str):
+        __doc__ = doc
+    return Tag
+S1 = _mk_str("one")
+S2 = _mk_str("two")
+
+class Field(str):
+    """a str subclass whose name is also a name of the library's own generated namespaces"""
+
+class MISSING(str):
+    pass
+
 FnEnumVar = Enum("FnEnum", "A B")            # variable name differs from the class name
 FnNTVar = NamedTuple("FnNT", [("a", int)])
 FnTDVar = TypedDict("FnTD", {"a": int})
@@ -193,6 +206,10 @@ TYPES = [
     ("ovr", "Ovr"), ("ovr2", "Ovr2"), ("newtype_misnamed", "Tuple[NTX, str]"), ("newtype_local", "Dict[str, NTL]"),
     ("newtype_opt", "Optional[NTX]"),
     ("u_newtype_list", "List[Union[NTI, datetime.date]]"),
+    # str subclasses as union members (they get an exact-type test by name): same-named local ones, and names that the
+    # generated namespaces already use for something else
+    ("u_strsub_two", "Union[S1, S2, int]"), ("u_strsub_field", "Union[Field, int]"), ("u_strsub_missing", "Union[MISSING, int]"),
+    ("dc_strsub", "Dict[str, Union[S2, Field]]"),
 ]
 
 
@@ -204,7 +221,10 @@ def harnesses(tier, seed):
             if tier == "quick" and variant == "field" and n.startswith(("two_", "local", "ddict")):
                 continue
             try:
-                hs.append(gen.custom_harness("C17", "c03", s, variant, "prefix='C17'", "prefix='C17'", name_suffix="_dec"))
+                if "strsub" not in n:
+                    # (a str subclass member is passed through / coerced with str(): what arbitrary input becomes there is
+                    # not stated; the round trip of conforming values below is)
+                    hs.append(gen.custom_harness("C17", "c03", s, variant, "prefix='C17'", "prefix='C17'", name_suffix="_dec"))
                 hs.append(gen.value_harness("C17", "c02", s, variant, "Bounds(maxlen=1)", setup_kwargs="has_any=True, prefix='C17'",
                                             name_suffix="_enc"))
                 if n not in ("lit_local_enum",):
